@@ -29,8 +29,21 @@ func checkC20(c *Ctx) {
 	c.Rule("C20.grow", "GROW: polynomial.grow, which every conversion calls to extend the coefficient vector to the size of the domain, looks at the layout before appending zero coefficients (appending is value-preserving in regular layout only)", 7)
 	c.Rule("C20.coset", "COSET: every function of the package that can produce a polynomial in LagrangeCoset form (it stores a non-constant basis, or builds a Polynomial from a form it received as parameter) also sets the coset field, which Evaluate divides by", 14)
 	c.Rule("C20.domainpoint", "DOMAIN-POINT: in the Lagrange-form evaluation the denominators x - w^i handed to BatchInvert are all known to be non-zero (a zero one is treated before: the value at a point of the domain is the entry itself; 0/0 in the barycentric formula gave 0)", 7)
+	c.Rule("C20.stalecap", "STALE-CAPACITY: no function of the iop and polynomial packages extends a slice into its spare capacity (s[:n] with n taken from or compared with cap(s)) without clearing the exposed elements: growing a coefficient vector must append zeros, not resurrect the coefficients of an earlier, longer value (cap() is not used anywhere on the reference tree)", 14)
 	c.Rule("C20.alias", "ALIAS: the deep Clone shares no coefficient storage with its source (its coefficient vector comes from a fresh allocation)", 7)
 
+	for _, pk := range append(p.FamilyPkgs("ecc/*/fr/iop"), p.FamilyPkgs("ecc/*/fr/polynomial")...) {
+		n := 0
+		var hits []Finding
+		for _, fn := range libFuncs(p, pk) {
+			k, h := staleCapacityReslices(p, fn)
+			n += k
+			hits = append(hits, h...)
+		}
+		c.Instance("C20.stalecap", 1)
+		reportFindings(c, p, "C20.stalecap", nil, hits, "")
+		c.Ob("C20.stalecap", pk, pk, "reslices-scanned", "-", true, "")
+	}
 	for _, pk := range p.FamilyPkgs("ecc/*/fr/iop") {
 		pkg := p.ByPath[modPath+"/"+pk]
 		if pkg == nil {
@@ -366,6 +379,9 @@ func checkTypestate(c *Ctx, p *Program, pkg *packages.Package, pk string, fd *as
 		coset bool
 		node  ast.Node
 	}
+	// unmodelled: a statement of a kind the symbolic execution below does not understand (a call to
+	// a helper, a nested branch, ...): the arm it sits in is then not judged
+	unmodelled := false
 	effectsOf := func(stmts []ast.Stmt) []effect {
 		var out []effect
 		for _, st := range stmts {
@@ -373,25 +389,35 @@ func checkTypestate(c *Ctx, p *Program, pkg *packages.Package, pk string, fd *as
 			case *ast.ReturnStmt:
 				out = append(out, effect{kind: "return", node: s})
 			case *ast.AssignStmt:
+				known := false
 				if len(s.Lhs) == 1 && len(s.Rhs) == 1 {
 					if sel, ok := s.Lhs[0].(*ast.SelectorExpr); ok {
 						if id, ok := s.Rhs[0].(*ast.Ident); ok {
 							switch sel.Sel.Name {
 							case "Layout":
 								out = append(out, effect{kind: "setLayout", arg: id.Name, node: s})
+								known = true
 							case "Basis":
 								out = append(out, effect{kind: "setBasis", arg: id.Name, node: s})
+								known = true
 							}
 						}
 					}
 				}
+				if !known {
+					unmodelled = true
+				}
 			case *ast.ExprStmt:
 				call, ok := s.X.(*ast.CallExpr)
 				if !ok {
+					unmodelled = true
 					continue
 				}
 				sel, ok := call.Fun.(*ast.SelectorExpr)
 				if !ok {
+					if id, isID := call.Fun.(*ast.Ident); !isID || id.Name != "panic" {
+						unmodelled = true
+					}
 					continue
 				}
 				switch sel.Sel.Name {
@@ -412,12 +438,19 @@ func checkTypestate(c *Ctx, p *Program, pkg *packages.Package, pk string, fd *as
 					out = append(out, e)
 				case "BitReverse":
 					out = append(out, effect{kind: "BitReverse", node: s})
+				case "Set", "grow":
+					// coset bookkeeping / resizing: no effect on basis or layout
+				default:
+					unmodelled = true
 				}
+			default:
+				unmodelled = true
 			}
 		}
 		return out
 	}
 	tail := effectsOf(after)
+	tailUnmodelled := unmodelled
 	for _, cc := range sw.Body.List {
 		clause := cc.(*ast.CaseClause)
 		if clause.List == nil {
@@ -432,7 +465,9 @@ func checkTypestate(c *Ctx, p *Program, pkg *packages.Package, pk string, fd *as
 			}
 			continue
 		}
+		unmodelled = false
 		effs := effectsOf(clause.Body)
+		armUnmodelled := unmodelled || tailUnmodelled
 		for _, e := range clause.List {
 			id, ok := e.(*ast.Ident)
 			if !ok {
@@ -444,6 +479,10 @@ func checkTypestate(c *Ctx, p *Program, pkg *packages.Package, pk string, fd *as
 				continue
 			}
 			covered[id.Name] = true
+			if armUnmodelled {
+				c.Note(fmt.Sprintf("%s, case %s: the arm contains a statement this rule does not model (helper call, nested branch): not judged", fk, id.Name))
+				continue
+			}
 			cur := start
 			claimed := start
 			ok2 := true
